@@ -50,6 +50,9 @@ pub enum Auth {
     /// bytes: the leading bytes of the right HMAC, filler beyond it. Lengths the RFC does not allow
     /// are accepted by the parser and must make the response fail validation.
     OddLength { key: u8, algo: u8, len: u8 },
+    /// a correct MESSAGE-INTEGRITY directly followed by a MESSAGE-INTEGRITY-SHA256 of `len` value
+    /// bytes taken from the right HMAC (so correct when `len` is a legal length, malformed otherwise)
+    Sha1PlusSha256Len { key: u8, len: u8 },
 }
 
 #[derive(Debug, Clone, PartialEq, Eq, Hash, Serialize, Deserialize)]
@@ -417,6 +420,15 @@ pub fn response_bytes(id: u128, error: bool, auth: Auth, fp: bool, content: u8) 
             let mut v = mac;
             v.resize(len, 0x5a);
             refstun::push_tlv(&mut buf, ty, &v, 0);
+        }
+        Auth::Sha1PlusSha256Len { key, len } => {
+            let k = creds_k(key).key();
+            refstun::push_mi(&mut buf, &k);
+            let len = len as usize;
+            let start = buf.len();
+            let mut v = crate::refimpl::hmac_sha256(&k, &refstun::hmac_input(&buf, start, len)).to_vec();
+            v.resize(len, 0x5a);
+            refstun::push_tlv(&mut buf, T_SHA256, &v, 0);
         }
         Auth::Signed { key, algo } | Auth::Corrupted { key, algo } => {
             let k = creds_k(key).key();
@@ -1601,6 +1613,8 @@ fn auth_strategy() -> BoxedStrategy<Auth> {
         2 => (0u8..2, 0u8..3).prop_map(|(key, algo)| Auth::Corrupted { key, algo }),
         2 => (0u8..2, 0u8..2, prop_oneof![Just(0u8), Just(4), Just(12), Just(16), Just(19), Just(20), Just(21), Just(24), Just(28), Just(32), Just(33), Just(36), 0u8..=44])
             .prop_map(|(key, algo, len)| Auth::OddLength { key, algo, len }),
+        1 => (0u8..2, prop_oneof![Just(0u8), Just(4), Just(12), Just(15), Just(16), Just(18), Just(22), Just(32), Just(33), Just(36), 0u8..=44])
+            .prop_map(|(key, len)| Auth::Sha1PlusSha256Len { key, len }),
     ]
     .boxed()
 }
